@@ -40,6 +40,9 @@ pub enum Damage {
     /// XOR one byte of marker occurrence `which` (0 = header marker, i = trailer of block i-1)
     Marker { which: usize, byte: usize, xor: u8 },
     Magic { byte: usize, xor: u8 },
+    /// the file is intact, but the source reports one error of `kind` (0 Other, 1 WouldBlock,
+    /// 2 TimedOut, 3 ConnectionReset) when the read position reaches `at`, and would then go on
+    ReadErr { at: u64, kind: u8, chunk: Chunk },
 }
 
 #[derive(Clone, Debug, Serialize, Deserialize)]
@@ -376,6 +379,47 @@ fn judge_cut(b: &Built, x: usize, o: &Observed, iter: &str, codec: &str) -> Opti
     None
 }
 
+/// A one-off read error at offset `x` of an intact file: what was delivered is exactly the blocks
+/// read completely before it, the error is reported (also when it falls on a block boundary: it
+/// is not an end of file), and nothing follows it - the source would deliver the rest, but a
+/// reader that carries on after a failed block read decodes a buffer it never filled.
+fn judge_read_err(b: &Built, x: usize, kind: u8, o: &Observed, iter: &str, codec: &str) -> Option<Failure> {
+    let l = &b.layout;
+    let region = region_of(l, x);
+    let kname = ["Other", "WouldBlock", "TimedOut", "ConnectionReset"][kind as usize % 4];
+    let sig = |what: &str| format!("C14 {what} region={region} iter={iter} error={kname}");
+    if x >= b.bytes.len() {
+        return None;
+    }
+    if x < l.header_end {
+        if o.open_ok {
+            return Some(Failure::new("open-swallows-read-error", sig("open-swallows-read-error"), format!("a {kname} error at offset {x}, inside the header, but Reader::new succeeded; codec {codec}")));
+        }
+        return None;
+    }
+    if !o.open_ok {
+        return Some(Failure::new("open-fails-on-complete-header", sig("open-fails-on-complete-header"), format!("a {kname} error at offset {x} (header ends at {}) but Reader::new failed: {}; codec {codec}", l.header_end, o.open_err)));
+    }
+    // a block is read completely iff it ends at or before x (the reader reads block by block)
+    let expected: Vec<&Value> = l.blocks.iter().zip(&b.expected).filter(|(blk, _)| blk.end <= x).flat_map(|(_, v)| v.iter()).collect();
+    if o.oks.len() != expected.len() || !o.oks.iter().zip(&expected).all(|(a, b)| avro_eq(a, b)) {
+        let class = if o.oks.len() > expected.len() { "values-after-read-error" } else { "not-a-true-prefix" };
+        return Some(Failure::new(
+            class,
+            sig(class),
+            format!("a {kname} error at offset {x}: {} value(s) lie in blocks read completely before it, the reader delivered {} Ok item(s); codec {codec}", expected.len(), o.oks.len()),
+        ));
+    }
+    if o.errs != 1 || o.after_err > 0 || !o.ended {
+        return Some(Failure::new(
+            "read-error-not-reported-once",
+            sig("read-error-not-reported-once"),
+            format!("a {kname} error at offset {x} ({region}): errors={} items-after-error={} ended={}; codec {codec}", o.errs, o.after_err, o.ended),
+        ));
+    }
+    None
+}
+
 fn judge_marker(b: &Built, which: usize, o: &Observed, iter: &str, codec: &str) -> Option<Failure> {
     let sig = |what: &str| format!("C14 {what} marker={} iter={iter}", if which == 0 { "header" } else { "trailer" });
     if !o.open_ok {
@@ -445,6 +489,11 @@ fn run_damage(case: &Case, b: &Built, d: &Damage, ctx: &mut Ctx) -> Option<Failu
                 let x = *at as usize;
                 (observe(case, &b.bytes, plan, max_items, *deser), Box::new(move |o| judge_cut(b, x, o, iname, codec)))
             }
+            Damage::ReadErr { at, kind, chunk } => {
+                let plan = SourcePlan { chunk: chunk.clone(), faults: vec![ReadFault { kind: ReadFaultKind::Once(*kind), at: *at }], eintr_every: 0 };
+                let (x, k) = (*at as usize, *kind);
+                (observe(case, &b.bytes, plan, max_items, *deser), Box::new(move |o| judge_read_err(b, x, k, o, iname, codec)))
+            }
             Damage::Marker { which, byte, xor } => {
                 let off = if *which == 0 { b.layout.header_marker_start } else { b.layout.blocks[*which - 1].marker_start } + byte;
                 let mut bytes = b.bytes.clone();
@@ -505,6 +554,14 @@ fn run_damage(case: &Case, b: &Built, d: &Damage, ctx: &mut Ctx) -> Option<Failu
                         ctx.agg.count("fault.flip_magic_byte");
                         ctx.agg.state(format!("{codec}|magic|{iname}"));
                     }
+                    Damage::ReadErr { at, kind, .. } => {
+                        ctx.agg.count("fault.read_error_once");
+                        let region = region_of(&b.layout, *at as usize);
+                        if region == "boundary" {
+                            ctx.agg.count("probe.read_error_on_block_boundary");
+                        }
+                        ctx.agg.state(format!("{codec}|readerr{kind}:{region}|{iname}"));
+                    }
                 }
                 if let Some(mut f) = verdict_fn(&o) {
                     f.detail = format!("{} [damage={}]", f.detail, serde_json::to_string(d).unwrap());
@@ -524,6 +581,17 @@ fn damages(case: &Case, b: &Built) -> Vec<Damage> {
         out.push(Damage::Cut { at: x, chunk: Chunk::Const(1), eintr_every: 0 });
         if x % 5 == case.salt % 5 {
             out.push(Damage::Cut { at: x, chunk: Chunk::Hashed { salt: case.salt, max: 7 }, eintr_every: 3 });
+        }
+    }
+    // one-off read errors: every offset with one kind (rotating), every block boundary with all kinds
+    for x in 0..len {
+        out.push(Damage::ReadErr { at: x, kind: ((x + case.salt) % 4) as u8, chunk: if x % 2 == 0 { Chunk::All } else { Chunk::Const(1) } });
+    }
+    let mut bounds = vec![b.layout.header_end as u64];
+    bounds.extend(b.layout.blocks.iter().map(|blk| blk.end as u64));
+    for x in bounds {
+        for kind in 0..4u8 {
+            out.push(Damage::ReadErr { at: x, kind, chunk: Chunk::All });
         }
     }
     let occurrences = 1 + b.layout.blocks.len();
